@@ -112,19 +112,22 @@ Feed(i, in) ==
 \* next() with NaN, +-inf, +-f64::MAX, a subnormal or -0.0 (fed as a one-price bar or a scalar)
 TokVal(tok) == CASE tok = "NaN" -> NAN [] tok = "PInf" -> PINF [] tok = "NInf" -> NINF
                  [] tok = "FMax" -> PINF - 1 [] tok = "NFMax" -> NINF + 1 [] OTHER -> 0
-Tok(i, tok) ==
+\* asbar: feed the value through Next<&T> as a one-price bar even if the kind also has a scalar path
+TokAs(i, tok, asbar) ==
     /\ Present(i)
     /\ LET I == inst[i]
            x == TokVal(tok)
-           in == IF "s" \in Accepts(I.kind) THEN [ty |-> "s", x |-> x]
+           in == IF "s" \in Accepts(I.kind) /\ ~asbar THEN [ty |-> "s", x |-> x]
                  ELSE [ty |-> "b", o |-> x, h |-> x, l |-> x, c |-> x, v |-> 1]
        IN /\ inst' = [inst EXCEPT ![i].taint = TRUE, ![i].t = I.t + 1, ![i].age = I.age + 1,
                                   \* cursors, counters and ring contents keep moving (the token's integer code stands in
                                   \* for the value; Minimum/Maximum compare it with IEEE semantics); no numeric
                                   \* expectation is derived from this state until Reset re-initialises it
                                   ![i].impl = ImplStep(I.kind, I.p, I.impl, in).s]
-          /\ Log([op |-> "tok", i |-> i, x |-> tok], [t |-> I.t + 1, taint |-> TRUE])
+          /\ Log([op |-> IF asbar THEN "tokb" ELSE "tok", i |-> i, x |-> tok], [t |-> I.t + 1, taint |-> TRUE])
     /\ UNCHANGED blobs
+Tok(i, tok) == TokAs(i, tok, FALSE)
+TokB(i, tok) == "s" \in Accepts(inst[i].kind) /\ TokAs(i, tok, TRUE)
 
 Reset(i) ==
     /\ Present(i)
@@ -177,6 +180,7 @@ Do(o) ==
     \/ o.op = "s" /\ Feed(o.i, [ty |-> "s", x |-> o.x])
     \/ o.op = "b" /\ Feed(o.i, [ty |-> "b", o |-> o.o, h |-> o.h, l |-> o.l, c |-> o.c, v |-> o.v])
     \/ o.op = "tok" /\ Tok(o.i, o.x)
+    \/ o.op = "tokb" /\ TokAs(o.i, o.x, TRUE)
     \/ o.op = "reset" /\ Reset(o.i)
     \/ o.op \in {"clone", "cloneinto"} /\ Clone(o.i, o.j)
     \/ o.op = "save" /\ Save(o.i, o.s)
@@ -189,6 +193,7 @@ Scripted == rest # <<>> /\ Do(Head(rest)) /\ rest' = Tail(rest)
 Free ==
     \/ \E i \in env.free, in \in env.inputs : Feed(i, in)
     \/ \E i \in env.free, tok \in env.toks : Tok(i, tok)
+    \/ \E i \in env.free, tok \in env.toks : Present(i) /\ BAlpha # {} /\ TokB(i, tok)     \* (only in models that feed bars at all)
     \/ \E i \in env.resets : Reset(i)
     \/ \E pr \in env.clones : Clone(pr[1], pr[2])
     \/ \E pr \in env.saves : Save(pr[1], pr[2])
